@@ -26,15 +26,23 @@ CLAIMS = {
 
 CLAIMS["C07"] = dict(
     category="other",
-    text=("Decides structural necessary conditions of 'reverse-mode sensitivities equal IFT derivatives': (D1) link "
-          "integrity (arity, tuple-unpack width, attributes) of the reverse-rule cones, so the rules can run at all; "
-          "(D2) the jax.custom_vjp packing/unpacking contract incl. residual roles and parameter restoration before any "
-          "Hessian/VJP use; (D3) slot-index agreement of param_index_update, Objective's jvp/vjp closures, the returned "
-          "Params tuple and the MechanicsInverse vjp wrappers; (D4) the adjoint sign convention (CG minimises v.z+1/2 z.H z, "
-          "lam used unnegated, the adjoint solve is run with an infinite trust-region radius); (D5) the adjoint function-space "
-          "constructor agrees statement by statement with the ordinary one modulo mesh.coords->coords (unification modulo names of locals). Numerical equality with dense IFT derivatives is NOT decided."),
+    text=("Decides structural necessary conditions of 'reverse-mode sensitivities equal IFT derivatives', read off the values of a symbolic "
+          "term interpretation of the source (rules/C07_sym.py: opaque terms, records, closures compared extensionally, vjp/jvp as "
+          "first-class derivative terms, a mutable attribute heap for Objective, forking on undecidable conditions, namedtuple-typed "
+          "symbols so that p[k] / p.field / _replace / unpacking denote the same slot; straight-line helpers inlined): (D1) link integrity "
+          "(arity, tuple-unpack width, attributes) of the reverse-rule cones; (D2) for each jax.custom_vjp triple, fwd's output is the "
+          "primal on its own arguments, the objective's parameter cell at the end of the primal equals the cell at every Hessian / VJP use in "
+          "bwd, every derivative is linearised at the returned solution, cotangent slot k is vjp(q -> R(u, p[k:=q]), p[k])(lam)[0] and is "
+          "None exactly when p[k] is None, the guess cotangent is zero; (D3) param_index_update is evaluated for every slot, Objective's "
+          "derivative closures vary their own p argument (not self.p), public methods agree with the slot/side their name announces, every "
+          "MechanicsInverse callable forwards every argument and differentiates only the announced one; (D4) the adjoint sign convention: lam is "
+          "[0] of the single CG solve with the cotangent as linear term, an unbounded radius and operator w -> H w (signs multiplied out), one "
+          "generic CG iteration interpreted (first direction -M r, step and residual recurrence); (D5) the adjoint function-space constructor "
+          "equals, field by field and for every mode literal, the ordinary constructor evaluated on the moved mesh. Numerical equality with "
+          "dense IFT derivatives is NOT decided. A named-value difference is REFUTED; a structurally different computation the interpreter "
+          "cannot normalise is UNDECIDED."),
     design_ref="DESIGN.md section 4, C07",
-    technique="static analysis: call-graph link checking, custom_vjp protocol checking, slot-table agreement, sibling comparison over the AST")
+    technique="static analysis: call-graph link checking; symbolic term interpretation of the custom_vjp triples, derivative closures and constructors with extensional closure comparison")
 
 CLAIMS["C01"] = dict(
     category="other",
